@@ -991,9 +991,12 @@ def time_summaries():
         a, b = deref(ex, st, argv[0]).fields[0].bv, deref(ex, st, argv[1]).fields[0].bv
         return [(st, dur(z3.If(z3.ULT(a, b), z3.BitVecVal(0, 128), a - b)))]
 
-    @reg(r'^<u32 as Mul<(std::time::)?Duration>>::mul$')
+    @reg(r'^<u32 as Mul<(std::time::)?Duration>>::mul$|^<(std::time::)?Duration as Mul<u32>>::mul$')
     def d_mul(ex, st, fn, argv):
-        k, a = argv[0].bv, dv(ex, st, argv[1])
+        if fn.startswith('<u32'):
+            k, a = argv[0].bv, dv(ex, st, argv[1])
+        else:
+            k, a = argv[1].bv, dv(ex, st, argv[0])
         r = z3.ZeroExt(96, k) * a
         outs = []
         for (s, c, ovf) in ex.fork_on(st, z3.UGT(r, z3.BitVecVal(DUR_MAX, 128)), None):
